@@ -49,7 +49,10 @@ def place_markers(rng, p):
                 if rng.random() < 0.5:
                     m = mark()
                     # list form, doc comment and bare-path form are all forwarded to the field
-                    a["attrs"] = [rng.choice([f"verif_mark({m})", f"doc = \"verif_mark({m})\"", f"verif_mark_{m}"])]
+                    # (also inside serde lists, whatever else the list says and whatever the argument's type is)
+                    a["attrs"] = [rng.choice([f"verif_mark({m})", f"doc = \"verif_mark({m})\"", f"verif_mark_{m}", f"serde(default = \"verif_mark_{m}\")",
+                                              f"serde(default, alias = \"verif_mark_{m}\")", f"serde(rename = \"verif_mark_{m}\", default)",
+                                              f"serde(default, skip_serializing_if = \"verif_mark_{m}\")"])]
                     if h["kind"] in KINDS_ENUM:
                         exp[m] = ("field", prefix + MSG_OF[h["kind"]], T.variant_ident(h["name"]), a["name"])
                     else:
